@@ -3,33 +3,47 @@
 (* Events: Config{n,q}  ReqSent{c,r}  Read{c,r} Invoked{r} Written{r} ConnClosed{c} AcceptExit Released (hooks) *)
 (*         RespRecv{c,r} CloseMsgRecv{c} PeerEOF{c} (client observations)  ShutdownStart ShutdownEnd{expired}  End *)
 EXTENDS ServerShutdown, Json
-VARIABLE l
+VARIABLES l,
+          seen,   \* connections whose client has received the close notification
+          gone    \* connections whose client vanished (abortive close by the client: ClientAbort)
 Trace == ndJsonDeserialize("trace.ndjson")
-tvars == <<vars, l>>
-TraceInit == Init /\ l = 1
+tvars == <<vars, l, seen, gone>>
+TraceInit == Init /\ l = 1 /\ seen = {} /\ gone = {}
+\* requests 3 and 6 are one-way in every run that sends them: handled like the others, never answered on the wire
+OneWay == {3, 6}
 IsEvent(e) == l <= Len(Trace) /\ Trace[l].e = e /\ l' = l + 1
-TReqSent == IsEvent("ReqSent") /\ ClientSend(Trace[l].r) /\ ConnOf[Trace[l].r] = Trace[l].c
-TRead == IsEvent("Read") /\ RecvRead(Trace[l].c) /\ Head(inbuf[Trace[l].c]) = Trace[l].r
-TInvoked == IsEvent("Invoked") /\ Invoke(Trace[l].r)
-TWritten == IsEvent("Written") /\ Write(Trace[l].r)
-TConnClosed == IsEvent("ConnClosed") /\ RecvClose(Trace[l].c)
-TAcceptExit == IsEvent("AcceptExit") /\ AcceptExit
-TReleased == IsEvent("Released") /\ (PoolDead \/ NoPoolReleased)
-TShutdownStart == IsEvent("ShutdownStart") /\ ShutdownStart
-TShutdownEnd == IsEvent("ShutdownEnd") /\ ShutdownReturn /\ (Trace[l].expired = expired)
+Keep == UNCHANGED <<seen, gone>>
+TReqSent == IsEvent("ReqSent") /\ ClientSend(Trace[l].r) /\ ConnOf[Trace[l].r] = Trace[l].c /\ Keep
+TRead == IsEvent("Read") /\ RecvRead(Trace[l].c) /\ Head(inbuf[Trace[l].c]) = Trace[l].r /\ Keep
+TInvoked == IsEvent("Invoked") /\ Invoke(Trace[l].r) /\ Keep
+\* (the hook is reached after conn.Write whether the write succeeded or not; a one-way request never gets there)
+TWritten == IsEvent("Written") /\ Trace[l].r \notin OneWay /\ Write(Trace[l].r) /\ Keep
+TConnClosed == IsEvent("ConnClosed") /\ RecvClose(Trace[l].c) /\ Keep
+TAcceptExit == IsEvent("AcceptExit") /\ AcceptExit /\ Keep
+TReleased == IsEvent("Released") /\ (PoolDead \/ NoPoolReleased) /\ Keep
+TShutdownStart == IsEvent("ShutdownStart") /\ ShutdownStart /\ Keep
+TShutdownEnd == IsEvent("ShutdownEnd") /\ ShutdownReturn /\ (Trace[l].expired = expired) /\ Keep
 \* client-side observations
-TRespRecv == IsEvent("RespRecv") /\ st[Trace[l].r] \in {"invoked", "written"} /\ UNCHANGED vars   \* the write sits between the two hooks
-TCloseMsgRecv == IsEvent("CloseMsgRecv") /\ notified[Trace[l].c] /\ UNCHANGED vars
-\* the client may see the end of the stream before the server-side hook after conn.Close() is recorded
+TRespRecv == IsEvent("RespRecv") /\ Trace[l].r \notin OneWay /\ st[Trace[l].r] \in {"invoked", "written"} /\ UNCHANGED vars /\ Keep   \* the write sits between the two hooks
+TCloseMsgRecv == IsEvent("CloseMsgRecv") /\ notified[Trace[l].c] /\ UNCHANGED vars /\ seen' = seen \cup {Trace[l].c} /\ UNCHANGED gone
+\* the client may see the end of the stream before the server-side hook after conn.Close() is recorded.  The server writes
+\* the close notification before it closes a connection, and TCP keeps the order: a client that is still there sees the
+\* notification before the end of the stream ("connected clients are sent the reconnect notification")
 TPeerEOF == /\ IsEvent("PeerEOF")
             /\ (sock[Trace[l].c] = "closed" \/ (rpc[Trace[l].c] = "draining" /\ numInvoke[Trace[l].c] = 0))
-            /\ UNCHANGED vars
+            /\ Trace[l].c \in seen
+            /\ UNCHANGED vars /\ Keep
+\* the client of connection c vanishes with a reset: nothing more is sent or observed on it; the server's read fails
+TClientAbort == IsEvent("ClientAbort") /\ UNCHANGED vars /\ gone' = gone \cup {Trace[l].c} /\ UNCHANGED seen
+GoneReturn(c) == /\ c \in gone /\ rpc[c] = "reading"
+                 /\ rpc' = [rpc EXCEPT ![c] = "draining"] /\ inbuf' = [inbuf EXCEPT ![c] = <<>>]
+                 /\ UNCHANGED <<hr, st, sock, numInvoke, notified, isClosed, apc, jobQ, dpc, dj, spc, expired, lateWrite>>
 \* end of the run (the harness waited well beyond every handler duration): everything read was answered,
 \* and unless the context expired every connection drained
 TEnd == /\ IsEvent("End")
         /\ \A r \in Reqs : WasRead(r) => st[r] = "written"
         /\ spc = "returned" /\ (~expired => AllConnsClosed)      \* by the end of the run every recv goroutine has finished as well
-        /\ UNCHANGED vars
+        /\ UNCHANGED vars /\ Keep
 \* a new run starts: N and Q of a run are constants of the TLC run (traces are grouped by configuration)
 TConfig == /\ IsEvent("Config") /\ Trace[l].n = N /\ Trace[l].q = Q
            /\ st' = [r \in Reqs |-> "unsent"] /\ inbuf' = [c \in Conns |-> <<>>]
@@ -39,11 +53,15 @@ TConfig == /\ IsEvent("Config") /\ Trace[l].n = N /\ Trace[l].q = Q
            /\ numInvoke' = [c \in Conns |-> 0] /\ notified' = [c \in Conns |-> c > Trace[l].conns]
            /\ isClosed' = FALSE /\ apc' = "accepting" /\ jobQ' = <<>> /\ dpc' = "sel" /\ dj' = 0
            /\ spc' = "idle" /\ expired' = FALSE /\ lateWrite' = FALSE
-TSilent == /\ \/ \E c \in Conns : RecvReturn(c) \/ Hand(c)
+           /\ seen' = {} /\ gone' = {}
+TSilent == /\ \/ \E c \in Conns : RecvReturn(c) \/ Hand(c) \/ GoneReturn(c)
               \/ DTake \/ DHand \/ PoolStop \/ Notify \/ Expire \/ \E c \in Conns : PollerClose(c)
-           /\ UNCHANGED l
-TraceNext == TReqSent \/ TRead \/ TInvoked \/ TWritten \/ TConnClosed \/ TAcceptExit \/ TReleased \/ TShutdownStart
+              \/ \E r \in OneWay : Write(r)                    \* the handler of a one-way request ends without a write
+           /\ UNCHANGED <<l, seen, gone>>
+TraceNext == TClientAbort \/ TReqSent \/ TRead \/ TInvoked \/ TWritten \/ TConnClosed \/ TAcceptExit \/ TReleased \/ TShutdownStart
              \/ TShutdownEnd \/ TRespRecv \/ TCloseMsgRecv \/ TPeerEOF \/ TEnd \/ TConfig \/ TSilent
+\* a connection whose client vanished is ended by the client, not by the shutdown: no notification is owed to it
+NotifiedT == \A c \in Conns \ gone : (sock[c] = "closed" /\ spc # "idle") => notified[c]
 TraceSpec == TraceInit /\ [][TraceNext]_tvars
 ASSUME TLCSet(1, 0)
 HighWater == (IF l > TLCGet(1) THEN TLCSet(1, l) ELSE TRUE)
